@@ -248,7 +248,7 @@ def run(rep, tier, seed):
         long_ws = w[0:rng.randint(3, 4)]
         short_ws = long_ws[:rng.randint(1, len(long_ws) - 1)]
         long_name, short_name = ' '.join(long_ws), ' '.join(short_ws)
-        shape = rng.randrange(4)
+        shape = rng.randrange(5)
         if shape == 0:      # two licenses, the longer alias first
             T = [('K-LONG', [long_name], False), ('K-SHORT', [short_name], False)]
             owner = {long_name: 'K-LONG', short_name: 'K-SHORT'}
@@ -257,6 +257,10 @@ def run(rep, tier, seed):
             owner = {long_name: 'K-LONG', short_name: 'K-SHORT'}
         elif shape == 2:    # two aliases of one license, the longer first
             T = [('K-ONE', [long_name, short_name], False), ('other', [], False)]
+            owner = {long_name: 'K-ONE', short_name: 'K-ONE'}
+        elif shape == 4:    # empty and blank entries among the aliases (an exported table): the names after them count as well
+            T = [('K-ONE', rng.choice([['', long_name, '  ', short_name], [long_name, '', short_name], ['   ', short_name, long_name]]), False),
+                 ('other', [''], False)]
             owner = {long_name: 'K-ONE', short_name: 'K-ONE'}
         else:               # an alias that begins the multi-word key of an earlier license
             T = [(long_name.upper(), [], False), ('K-SHORT', [short_name], False)]
